@@ -198,7 +198,7 @@ prop('C11',
      'DESIGN.md 3.8 (MT1-MT5), 4 C11')
 
 prop('C12',
-     [LS.ls1_ml, MO.ml2, R2.ml4, R2.lc2, MI.ml6, MI.lc1, ST.ex1, OK.ok4, R2.okv, R3.ml7, R3.ml8, R4.acc1, R4.sh1],
+     [LS.ls1_ml, MO.ml2, R2.ml4, R2.lc2, MI.ml6, MI.lc1, ST.ex1, OK.ok4, R2.okv, R3.ml7, R3.ml8, R4.acc1, R4.sh1, R4.lt1, R4.lt2],
      'text and map of every language section stay in lock step through sectioning, joining '
      'and placeholder insertion (LS1m)',
      'decides only the lock-step clause of C12 so far',
